@@ -934,6 +934,10 @@ func Cluster(eco string, r *rand.Rand) []string {
 	if chance(r, 1, 10) {
 		out = append(out, CollisionFamily(eco, r, 2)...)
 	}
+	// hash-extreme family: ordinary versions whose 32-bit hash is MinInt32 / 0 / MaxInt32 / 0xFFFFFFFF
+	if chance(r, 1, 10) {
+		out = append(out, ExtremeFamily(r, 3)...)
+	}
 	// length family: spellings whose LENGTH is a number literal of the sources (buffer sizes, length guards, fast-path
 	// thresholds) and its neighbours
 	if chance(r, 1, 8) {
